@@ -19,7 +19,7 @@ THEOREM = 'C08_aggregation / C08_line_order_irrelevant / C08_frequency_term_in_r
 
 HEADER = '''From Coq Require Import String List ZArith.
 From Coq Require Import PrimFloat.
-From Hpotk Require Import Base.Result Base.Emit TermId.Model Graph.Model Corr.Graph Hpoa.Float Hpoa.Model Corr.C08.
+From Hpotk Require Import Base.Result Base.Emit TermId.Model Graph.Model Corr.Graph Hpoa.Float Hpoa.Model Hpoa.Text Corr.C08.
 Import ListNotations.
 Open Scope string_scope.
 Open Scope list_scope.
@@ -62,6 +62,34 @@ def render_text(case):
     return '\n'.join(rows) + '\n'
 
 
+def cobs(obs):
+    if 'ok' in obs:
+        ds = []
+        for did, name, anns, moi in obs['ok']:
+            ca = clist([ctuple([cstr(p), cz(n), cz(d), clist([cstr(r) for r in refs]), clist([cstr(m) for m in mods])]) for p, n, d, refs, mods in anns])
+            ds.append(ctuple([cstr(did), cstr(name), ca, clist([cstr(m) for m in moi])]))
+        return f'(Ok {clist(ds)})'
+    return f'(Err {cexn(obs["err"])})'
+
+
+def render_text_coq(case, obs):
+    """the raw lines of the file (as Python iterates them) + the float() oracle for percentage literals"""
+    text = case.get('raw') or render_text(case)
+    # the file is opened in text mode with universal newlines: CRLF and CR arrive as LF
+    lines = text.replace('\r\n', '\n').replace('\r', '\n').split('\n')
+    lines = [l + '\n' for l in lines[:-1]] + ([lines[-1]] if lines[-1] else [])
+    cvt = {}
+    for ln in lines:
+        f = ln.strip().split('\t')
+        if len(f) > 7:
+            m = re.match(r'^(\d+\.?(\d+)?)%$', f[7])
+            if m:
+                cvt[m.group(1)] = float(m.group(1))
+    table = clist([ctuple([cstr(k), cfloat(v)]) for k, v in sorted(cvt.items())])
+    ver = 'None' if obs.get('version') is None else f'(Some {cstr(obs["version"])})'
+    return (f'(mkTCase {cz(case["cohort"])} {cbool(case["salvage"])} {table} {clist([cstr(l) for l in lines])} {cobs(obs)} {ver})')
+
+
 def render_coq(case, obs):
     t = GC.Table()
     lines = []
@@ -83,19 +111,26 @@ def render_coq(case, obs):
 
 
 def evaluate(chk, cases, tag='cases', shard=120):
-    payload = [dict(c, text=render_text(c)) for c in cases]
+    payload = [dict(c, text=c.get('raw') or render_text(c)) for c in cases]
     r = chk.run_impl('C08', {'cases': payload, 'workdir': str(chk.work)})
     obs = r['cases']
     bad = [i for i, o in enumerate(obs) if 'crash' in o]
     live = [i for i in range(len(cases)) if i not in set(bad)]
-    terms = {i: render_coq(cases[i], obs[i]) for i in live}
-    failing = {live[j]: ['loaded diseases differ from the model'] for j in chk.coq_failing(HEADER, [terms[i] for i in live], 'check_hpoa_case', shard=shard, tag=tag)}
+    structured = [i for i in live if 'raw' not in cases[i]]
+    terms = {i: render_coq(cases[i], obs[i]) for i in structured}
+    failing = {structured[j]: ['loaded diseases differ from the (line-level) model']
+               for j in chk.coq_failing(HEADER, [terms[i] for i in structured], 'check_hpoa_case', shard=shard, tag=tag)}
+    tterms = {i: render_text_coq(cases[i], obs[i]) for i in live}
+    for j in chk.coq_failing(HEADER, [tterms[i] for i in live], 'check_hpoa_text_case', shard=shard, tag=tag + '_text'):
+        failing.setdefault(live[j], []).append('loaded diseases / version differ from the text-level model (header scan, line splitting, frequency classification)')
+    for i in live:
+        terms.setdefault(i, tterms[i])
     for i in bad:
         failing[i] = ['observer crashed: ' + obs[i]['crash']]
     for i in live:
         o = obs[i]
         p = list(o.get('direct', []))
-        if 'ok' in o and o.get('version') != cases[i]['version']:
+        if 'ok' in o and 'raw' not in cases[i] and o.get('version') != cases[i]['version']:
             p.append(f'version {o.get("version")!r} != {cases[i]["version"]!r}')
         if p:
             failing.setdefault(i, [])
@@ -143,6 +178,56 @@ def gen_case(rng, variant):
             'salvage': rng.random() < 0.5, 'lines': lines}
 
 
+COLS = 'database_id\tdisease_name\tqualifier\thpo_id\treference\tevidence\tonset\tfrequency\tsex\tmodifier\taspect\tbiocuration'
+
+
+def raw_cases(rng, n):
+    """files written by hand at text level: odd headers, versions, separators, malformed lines"""
+    def row(**k):
+        d = {'d': 'OMIM:100000', 'n': 'Disease', 'q': '', 'p': 'HP:0000100', 'r': 'PMID:1', 'e': 'PCS', 'f': '', 'm': '', 'a': 'P', 'b': 'HPO:x[2020-01-01]'}
+        d.update(k)
+        return '\t'.join([d['d'], d['n'], d['q'], d['p'], d['r'], d['e'], '', d['f'], '', d['m'], d['a'], d['b']])
+    out = []
+    fixed = [
+        ['#version: 2024-04-26', COLS, row(f='1/2'), row(f='3/8')],
+        ['#date: 2021-08-02', '#version: 2024-04-26', COLS, row()],
+        ['#version: 2024-04-26 ', COLS, row()],                                   # trailing blank: no version
+        ['#version:2024-04-26', '#Version: 2024-01-01', COLS, row()],
+        ['# a comment', 'some text before the header', '#version: v1', COLS, row(q='not', f='2/10'), row(q='NoT')],
+        [COLS, '#version: too-late', row(a='i', p='HP:0000006')],
+        ['#DatabaseID\tDiseaseName', row(f='12.5%'), row(f='5%', p='HP:0000101'), row(f='100%', p='HP:0000102')],
+        ['#description: no column header at all', row()],
+        [COLS, row(r='PMID:1;;PMID:2; ;PMID:1', m='HP:0012828;')],
+        [COLS, row(r=' PMID:1')],                                                 # a CURIE with a leading blank is still a CURIE
+        [COLS, row(r='nocurie')],                                                 # ValueError
+        [COLS, row(f='abc')], [COLS, row(f='1/2/3')], [COLS, row(f='12.%')], [COLS, row(f='.5%')], [COLS, row(f='HP:0000001')], [COLS, row(f='HP:004028')],
+        [COLS, 'OMIM:1\tshort line'],                                             # IndexError
+        [COLS, ''],                                                               # blank data line: IndexError
+        [COLS, row(b='')],                                                        # empty last column is stripped away: IndexError
+        [COLS, row() + '\t'], [COLS, '  ' + row(f='1/4') + '  '],
+        [COLS, row(e='xyz'), row(e='tas', p='HP:0000101')],
+        [COLS, row(a='X'), row(a='', p='HP:0000101'), row(a='M', p='HP:0000102'), row(a='C', p='HP:0000103')],
+        [COLS, row(f='0/0', q='NOT'), row(f='0/5', q='NOT', p='HP:0000101'), row(f='2/5', q='NOT', p='HP:0000102')],
+        [COLS, row(n='Name A'), row(n='Name B')],
+        ['#version: 2024-04-26', COLS],
+        [],
+    ]
+    for rows in fixed:
+        for cohort, salvage, nl in ((50, False, '\n'), (10, True, '\n'), (50, False, '\r\n')):
+            text = nl.join(rows) + (nl if rows else '')
+            out.append({'raw': text, 'cohort': cohort, 'salvage': salvage, 'style': 'raw', 'version': None, 'lines': []})
+    freqs = ['', '1/2', '0/3', '7/7', 'HP:0040280', 'HP:0040283', '25%', '12.5%', '0%', '3/2x', '%', '1/', 'HP:0040280 ', '50 %']
+    for _ in range(n):
+        rows = ['#version: ' + rng.choice(['2024-04-26', 'v1_2-3', '2024 04', ''])] if rng.random() < 0.7 else []
+        rows.append(rng.choice([COLS, COLS, '#DatabaseID\tx', 'database_id']))
+        for _ in range(rng.randint(0, 5)):
+            rows.append(row(d=rng.choice(['OMIM:100000', 'OMIM:200000']), q=rng.choice(['', '', 'NOT', 'not']), p=rng.choice(PH[:3]),
+                            f=rng.choice(freqs), a=rng.choice(['P', 'P', 'I', 'p', 'M']), r=rng.choice(['PMID:1', 'PMID:1;PMID:2', 'PMID:2;', ';PMID:3']),
+                            m=rng.choice(['', 'HP:0012828', 'HP:0012828;HP:0003577'])))
+        out.append({'raw': '\n'.join(rows) + '\n', 'cohort': rng.choice([1, 10, 50]), 'salvage': rng.random() < 0.5, 'style': 'raw', 'version': None, 'lines': []})
+    return out
+
+
 def run(chk):
     rng = chk.rng
     cases = GC.load_corpus('C08')
@@ -154,6 +239,7 @@ def run(chk):
         rng.shuffle(c2['lines'])
         c2['shuffle_of'] = len(cases) - 1
         cases.append(c2)
+    cases += raw_cases(rng, 120 if chk.tier == 'quick' else 800)
     # one present line per frequency term and cohort size: every term must land inside its range
     for cohort in (1, 5, 10, 50, 73, 1000):
         lines = [{'disease': 'OMIM:100000', 'name': 'd', 'negated': False, 'pheno': PH[j], 'refs': ['PMID:1'], 'evidence': 'PCS', 'freq': ft, 'mods': [], 'aspect': 'P'}
@@ -184,7 +270,9 @@ def run(chk):
                 'frequency terms on present and negated lines / percentages, NOT with and without salvage incl. 0/0, cohort sizes {1,5,10,50,73,200,1000}, 1-3 references, '
                 '0-2 modifiers; each file also with its data lines shuffled; per disease the sorted (phenotype, numerator, denominator, references, modifiers) and the modes of '
                 'inheritance WITH their Python type are compared with the model; is_present, frequency(), 0 <= n <= d and the version are checked on the implementation; '
-                'HPO_FREQUENCIES (bounds and .frequency) is compared bit for bit with the model table')
+                'HPO_FREQUENCIES (bounds and .frequency) is compared bit for bit with the model table; EVERY file is also fed to the text-level model as raw lines (header scan, TAB / ; splitting, '
+                'NOT, evidence, aspect, frequency-column classification), plus hand-written odd files: both header styles, version lines with blanks, text before the header, CRLF, short / blank '
+                'lines (IndexError), bad CURIEs and frequencies (ValueError), empty last column')
     if not fr:
         chk.report_violation('C08:frequency-table', {'frequency_table': ftab, 'theorem': 'C08_term_frequency_within_bounds',
                                                      'explanation': 'HpoFrequency.frequency of the live module is not (lower + upper) / 2'},
@@ -201,6 +289,8 @@ def run_check_table(chk, ft):
 
 
 def shrink(chk, case):
+    if 'raw' in case:
+        return case
     cur = case
     for _ in range(40):
         ls = cur['lines']
@@ -223,6 +313,8 @@ def model_answer(chk, term):
 
 
 def sig_of(case, obs):
+    if 'raw' in case:
+        return 'C08:text-level'
     fs = [l['freq'] for l in case['lines']]
     if any(o for o in obs.get('ok', []) if any(str(m).startswith('str:') for m in o[3])):
         return 'C08:modes-of-inheritance-type'
@@ -254,7 +346,7 @@ def report(chk, cases, obs, failing, limit=4, examine=10):
         if sig in seen and sig != pre:
             continue
         seen[sig] = seen.get(sig, 0) + 2
-        chk.report_violation(sig, {'case': small, 'file': render_text(small), 'impl': o[0], 'model': model_answer(chk, terms[0]) if 0 in terms else 'n/a',
+        chk.report_violation(sig, {'case': small, 'file': small.get('raw') or render_text(small), 'impl': o[0], 'model': model_answer(chk, terms[0]) if 0 in terms else 'n/a',
                                    'problems': f.get(0, failing[i])[:5], 'theorem': THEOREM, 'failing_cases_total': len(failing)},
                              what=f'{sig}: {f.get(0, failing[i])[0]} | cohort={small["cohort"]} salvage={small["salvage"]} lines={json.dumps(small["lines"])}'[:900])
 
